@@ -312,7 +312,57 @@ class SymEval:
             if k.startswith("self."):
                 env[k] = v
         st = State(env)
-        st = self.block(self.func.node.body, st)
+        body = list(self.func.node.body)
+        # constant prologue: leading statements that mention no parameter and that the constant folder can run (a small table built on every call,
+        # `table = []; for k in range(4): ...; table.append(...)`) are run by it, and the locals they leave are constants of the body
+        try:
+            names = set(env) | {a.vararg.arg if a.vararg else None, a.kwarg.arg if a.kwarg else None}
+            loc: dict = {}
+            k = 0
+            while k < len(body):
+                stt = body[k]
+                if isinstance(stt, ast.Expr) and isinstance(stt.value, ast.Constant):
+                    k += 1
+                    continue
+                if not isinstance(stt, (ast.Assign, ast.For, ast.While, ast.AugAssign, ast.Expr)) or any(isinstance(n_, ast.Name) and n_.id in names for n_ in ast.walk(stt)) \
+                        or any(isinstance(n_, (ast.Yield, ast.YieldFrom, ast.Await, ast.Lambda)) for n_ in ast.walk(stt)):
+                    break
+                # only compound statements are worth folding (plain assignments are evaluated as well by the term evaluator itself)
+                trial = dict(loc)
+                from .consteval import _Unfoldable
+
+                try:
+                    r_ = self.ce._run_block(self.func.module, [stt], self.modenv, trial, [4000])
+                except _Unfoldable:
+                    break
+                except Exception:  # noqa: BLE001 - anything the folder cannot do leaves the statement to the evaluator
+                    break
+                if r_ is not None:
+                    break
+                loc = trial
+                k += 1
+            rest_ = body[k:]
+
+            def untouched(n_):
+                # the rest of the function only reads the local: no rebinding, no item store, no method call on it (a mutation would go unseen)
+                for x in rest_:
+                    for y in ast.walk(x):
+                        if isinstance(y, ast.Name) and y.id == n_ and not isinstance(y.ctx, ast.Load):
+                            return False
+                        if isinstance(y, ast.Attribute) and isinstance(y.value, ast.Name) and y.value.id == n_:
+                            return False
+                        if isinstance(y, ast.Subscript) and isinstance(y.value, ast.Name) and y.value.id == n_ and not isinstance(y.ctx, ast.Load):
+                            return False
+                return True
+
+            if any(isinstance(x, (ast.For, ast.While)) for x in body[:k]) and loc and all(untouched(n_) or not isinstance(v_, (list, dict, set)) for n_, v_ in loc.items()) \
+                    and all(untouched(n_) for n_, v_ in loc.items() if isinstance(v_, (list, dict, set))):
+                for n_, v_ in loc.items():
+                    st.env[n_] = self.lift(v_)
+                body = rest_
+        except Exception:  # noqa: BLE001
+            body = list(self.func.node.body)
+        st = self.block(body, st)
         self.final = st
         return self
 
@@ -536,6 +586,8 @@ class SymEval:
         elif isinstance(t, ast.Subscript):
             base = self.expr(t.value, st)
             key = self.slice_(t.slice, st)
+            if key[0] == "bin" and key[1] == "-" and is_const(key[3]) and isinstance(key[3][1], int) and key[3][1] > 0 and key[2][0] == "call" and key[2][2] == ("builtin", "len") and key[2][3] == (base,):
+                key = const(-key[3][1])  # L[len(L) - k] = ... addresses the k-th element from the end
             self._effect("setitem", stmt, v, st, target=("item", base, key))
             # local container update is tracked symbolically as an opaque new version
             if isinstance(t.value, ast.Name):
@@ -580,6 +632,10 @@ class SymEval:
                 # a flag with a default (`bad = False; if v: bad = bool(x)` then `if bad:`): decided on the constant alternatives, the truth of the
                 # others on theirs
                 return self._bool_tree(c, bool, other=lambda t: self.cond(t[3][0] if t[0] == "call" and t[2] == ("builtin", "bool") and len(t[3]) == 1 and not t[4] else t))
+            if c[0] == "ite" and _ite_depth({"c": c}) <= 4 and _cond_leaves(c):
+                # a test kept in a variable and refined on one branch (`ok = a == K; if ok: ok = b == 0` then `if ok:`): the alternatives are
+                # conditions themselves
+                return self._bool_tree(c, bool, other=lambda t: self.cond(t))
             if c[0] == "truth":
                 c = c[1]
                 continue
@@ -690,7 +746,7 @@ class SymEval:
         lid = f"{self._lid_prefix}L{getattr(s, 'lineno', 0)}"
         assigned = _assigned_names(s.body) | (_assigned_names([ast.Assign(targets=[s.target], value=ast.Constant(0))]) if isinstance(s, ast.For) else set())
         fields = _assigned_fields(s.body, self.selfname)
-        calls_self = _calls_self_methods(s.body, self.selfname)
+        calls_self = _calls_self_methods(s.body, self.selfname, st.env)
         info = {"node": s, "assigned": assigned, "fields": fields, "unrolled": None}
         self.loop_info[lid] = info
         if isinstance(s, ast.For):
@@ -789,7 +845,11 @@ class SymEval:
                     st.env[k] = ("loop", lid, k)
             st.env["self.*"] = ("in", lid)
         for n_, v_ in (pins or {}).items():
-            st.env[n_] = v_
+            if isinstance(v_, tuple) and v_ and v_[0] == "derived-len":
+                # a local that mirrors the length of another loop-carried value (`n = len(buf)` before the loop and after every change of buf)
+                st.env[n_] = ("call", self._new_uid(), ("builtin", "len"), (st.env.get(v_[1], ("field", v_[1][5:]) if v_[1].startswith("self.") else ("undef", v_[1])),), ())
+            else:
+                st.env[n_] = v_
         for fl in getattr(s, "_sa_flags", None) or ([s._sa_flag_loop] if getattr(s, "_sa_flag_loop", None) else []):
             # a flag loop rewritten to its break form (threadflags): the flag has its continue value at every entry to the head
             st.env[fl[0]] = const(fl[1])
@@ -836,6 +896,22 @@ class SymEval:
                 hv = (pins or {}).get(n_, ("loop", lid, n_))
                 if pv is not None and _const_display(pv) and (pins is None or n_ in pins) and all(e_.env.get(n_) == hv for e_ in cont):
                     stable[n_] = pv
+            def len_arg(t_):
+                return t_[3][0] if isinstance(t_, tuple) and t_ and t_[0] == "call" and t_[2] == ("builtin", "len") and len(t_[3]) == 1 and not t_[4] else None
+
+            def val_of(env_, w_):
+                return env_.get(w_, ("field", w_[5:]) if w_.startswith("self.") else None)
+
+            for n_ in assigned:
+                if "." in n_ or n_ in split or n_ in stable or (pins is not None and n_ not in pins):
+                    continue
+                a_ = len_arg(pre.env.get(n_))
+                if a_ is None:
+                    continue
+                for w_ in sorted(set(assigned) | {"self." + f_ for f_ in fields}):
+                    if w_ != n_ and val_of(pre.env, w_) == a_ and all(len_arg(e_.env.get(n_)) is not None and len_arg(e_.env.get(n_)) == val_of(e_.env, w_) for e_ in cont):
+                        stable[n_] = ("derived-len", w_)
+                        break
             if isinstance(s, ast.For):
                 for t_ in ast.walk(s.target):
                     if isinstance(t_, ast.Name):
@@ -856,6 +932,11 @@ class SymEval:
             out.env["self.*"] = ("out", lid)
         if isinstance(s, ast.While) and self.truth(info["test"]) is None and not _has_break(s.body):
             out.assume(info["test"], False)
+        brks_ = [st_ for k_, st_ in info["ends"] if k_ == "break"]
+        if isinstance(s, ast.While) and self.truth(info["test"]) is True and len(brks_) == 1 and not s.orelse:
+            # `while True:` left by its one break: what held at the break holds after the loop (the loop-carried names in it stand for the values
+            # of the final iteration, as they do in the negated test of a conditioned loop)
+            out.dnf = brks_[0].dnf
         if s.orelse and _has_break(s.body):
             # the else clause runs only when the loop ends because its test fails; a break skips it
             normal = State(dict(out.env), out.dnf, None)
@@ -1108,6 +1189,10 @@ class SymEval:
                 return const(op == "and")
             if len(vals) == 1:
                 return vals[0]
+            if op == "or" and all(v[0] == "cmp" and v[1] == "==" and v[2] == vals[0][2] and is_const(v[3]) for v in vals):
+                return self.cmp("in", vals[0][2], const(tuple(v[3][1] for v in vals)))  # x == a or x == b or ... is x in (a, b, ...)
+            if op == "and" and all(v[0] == "cmp" and v[1] == "!=" and v[2] == vals[0][2] and is_const(v[3]) for v in vals):
+                return self.cmp("not in", vals[0][2], const(tuple(v[3][1] for v in vals)))
             return (op, tuple(vals))
         if isinstance(e, ast.Compare):
             left = self.expr(e.left, st)
@@ -1266,6 +1351,8 @@ class SymEval:
         return top(type(e).__name__)
 
     def index(self, base, idx):
+        if idx[0] == "bin" and idx[1] == "-" and is_const(idx[3]) and isinstance(idx[3][1], int) and idx[3][1] > 0 and idx[2][0] == "call" and idx[2][2] == ("builtin", "len") and idx[2][3] == (base,):
+            idx = const(-idx[3][1])  # counted from the end
         if idx[0] == "elem" and idx[1] == base and base[0] == "gval" and isinstance(base[1].v, dict):
             # D[k] for k ranging over the constant dict D itself is the corresponding element of D.values()
             return ("elem", self.lift(base[1].v.values()), idx[2])
@@ -1530,6 +1617,13 @@ class SymEval:
         if f[0] == "attr" and f[1][0] == "builtin" and f[1][1] in ("int", "bytes", "str") and args and f[2] in ("to_bytes", "bit_length", "hex", "decode", "strip", "split", "rsplit", "startswith", "endswith"):
             # the unbound-method form T.m(x, ...) of x.m(...) for a value of the builtin type T
             recv, f, args = args[0], ("attr", args[0], f[2]), args[1:]
+        if f[0] == "builtin" and f[1] in ("int", "str", "bytes", "tuple") and len(args) == 1 and not kwargs and not is_const(args[0]) \
+                and static_type(args[0]) is {"int": int, "str": str, "bytes": bytes, "tuple": tuple}[f[1]]:
+            return args[0]  # a conversion to the type the value already has is the value
+        if f == ("builtin", "range") and len(args) == 1 and not kwargs and args[0][0] == "call" and args[0][2] == ("builtin", "len") and len(args[0][3]) == 1 and not args[0][4]:
+            inner_ = args[0][3][0]
+            if inner_[0] == "call" and inner_[2] == ("builtin", "range") and len(inner_[3]) == 1 and not inner_[4]:
+                args = (inner_[3][0],)  # range(len(range(n))) visits what range(n) visits (nothing for n <= 0)
         if f == ("builtin", "bool") and len(args) == 1 and not kwargs and not is_const(args[0]):
             return ("truth", args[0])  # bool(x) is the truth of x (the form `not not x` has): no call of its own
         # ---- pure folding on constants
@@ -1720,6 +1814,13 @@ def _ite_depth(env) -> int:
         return memo[k]
 
     return max((d(v) for v in env.values()), default=0)
+
+
+def _cond_leaves(t) -> bool:
+    """Every alternative of the gated term is a condition (comparison, and / or / not of such, truth, a boolean constant)."""
+    if t[0] == "ite":
+        return _cond_leaves(t[2]) and _cond_leaves(t[3])
+    return t[0] in ("cmp", "and", "or", "not", "truth", "sel") or (is_const(t) and isinstance(t[1], bool))
 
 
 def _some_const_leaf(t, depth=0) -> bool:
@@ -1920,6 +2021,22 @@ def static_type(t):
         return type(t[1].v) if type(t[1].v) in (dict, list, set) else (dict if isinstance(t[1].v, dict) else None)
     if t[0] == "typed":
         return t[1]
+    if t[0] == "call" and t[2][0] == "builtin" and not t[4]:
+        return {"len": int, "int": int, "ord": int, "abs": None, "bin": str, "hex": str, "str": str, "chr": str, "bytes": bytes, "bool": bool, "tuple": tuple, "list": list, "dict": dict}.get(t[2][1])
+    if t[0] == "call" and t[2][0] == "attr" and t[2][2] in ("count", "bit_length", "find", "index") and static_type(t[2][1]) in (str, bytes, int, list, tuple):
+        return int
+    if t[0] == "call" and t[2][0] == "attr" and t[2][2] == "from_bytes" and t[2][1] == ("builtin", "int"):
+        return int
+    if t[0] == "call" and t[2][0] == "attr" and t[2][2] == "to_bytes":
+        return bytes
+    if t[0] == "bin" and t[1] in ("+", "-", "*", "//", "%", "<<", ">>", "&", "|", "^"):
+        a, b = static_type(t[2]), static_type(t[3])
+        if a is int and b is int:
+            return int
+        if t[1] == "+" and a is b and a in (str, bytes):
+            return a
+    if t[0] in ("cmp", "not", "and", "truth"):
+        return bool if t[0] != "and" else None
     return None
 
 
@@ -2101,13 +2218,17 @@ def _assigned_fields(stmts, selfname) -> set[str]:
     return out
 
 
-def _calls_self_methods(stmts, selfname) -> bool:
+def _calls_self_methods(stmts, selfname, env=None) -> bool:
     if not selfname:
         return False
     for s in stmts:
         for n in ast.walk(s):
             if isinstance(n, ast.Call):
                 f = n.func
+                if isinstance(f, ast.Name) and env is not None:
+                    v = env.get(f.id)
+                    if isinstance(v, tuple) and v and ((v[0] == "attr" and v[1] == ("self",)) or v[0] in ("field", "fieldv")):
+                        return True  # a local alias of a bound method (`recv = self._recv; recv()`), or of a callable kept in a field
                 if isinstance(f, ast.Attribute) and isinstance(f.value, ast.Name) and f.value.id == selfname:
                     return True
                 if isinstance(f, ast.Name) and f.id == "setattr":
